@@ -307,14 +307,25 @@ def rule_transactions(ctx: Ctx) -> None:
     ctx.ob("C14-6", "G5", rd, sv[0].ast if sv else None, bool(sv) and not bad,
            "a snapshot read trusts the store value only after scanning the commit log in the step the store read returned (no commit can slip between the scan and the value)" + ("" if not bad else " — " + bad[0]))
     bi = [s for s in walk_stmts(cm.node.body) if isinstance(s, ast.Assign) and unparse(s.targets[0]).replace(" ", "") == "before_images[key]"]
-    okb = len(bi) == 1 and path_of(bi[0].value.func) == "self._manager._store.get_sync" and not always_before(ctx, cm, lambda x: x.ast is bi[0], lambda x: x is node_of(ff.cfg, writes[0]))
+    okb = len(bi) == 1 and isinstance(bi[0].value, ast.Call) and path_of(bi[0].value.func) == "self._manager._store.get_sync" and not always_before(ctx, cm, lambda x: x.ast is bi[0], lambda x: x is node_of(ff.cfg, writes[0]))
+    if okb:
+        # recorded for *every* written key (a key that did not exist yet has the before-image None — that is what a snapshot taken before must read)
+        loops = [s2 for s2 in walk_stmts(cm.node.body) if isinstance(s2, ast.For) and any(x is bi[0] for x in ast.walk(s2))]
+        okb = len(loops) == 1 and bi[0] in loops[0].body and "self._write_set" in unparse(loops[0].iter)
     kw = {k.arg: unparse(k.value) for c in calls_in(cm.node) if path_of(c.func) == "_CommitLogEntry" for k in c.keywords}
     ctx.ob("C14-6", "G2", cm, bi[0] if bi else None, okb and kw.get("before_images") == "before_images" and kw.get("version") == "self._manager._version",
            "each commit records, before overwriting, the value every written key had, under the new version number")
     ctx.floor("C14-6", 6)
 
 
+def rule_memtable_apply(ctx: Ctx) -> None:
+    from .common import applied_before_suspension
+    applied_before_suspension(ctx, "C14-3", ctx.prog.func(MEMT, "Memtable.put"), "self._data[key]",
+                              "Memtable.put applies the write before its latency suspends: a flush that swaps the memtable during the latency then carries the entry with it (written afterwards it would land in an already flushed, discarded memtable)")
+
+
 def run(ctx: Ctx) -> None:
+    ctx.guarded(rule_memtable_apply)
     ctx.guarded(rule_read_paths)
     ctx.guarded(rule_flush_and_iteration)
     ctx.guarded(rule_compaction)
@@ -323,6 +334,8 @@ def run(ctx: Ctx) -> None:
 
 
 MUTANTS = [
+    ("memtable-put-applies-after-latency", MEMT, "        self._data[key] = value\n        self._total_writes += 1\n        self._total_bytes_written += 64  # estimate\n        yield self._write_latency\n", "        self._total_writes += 1\n        self._total_bytes_written += 64  # estimate\n        yield self._write_latency\n        self._data[key] = value\n", "C14-3"),
+    ("before-image-skipped-for-new-keys", TXN, "            before_images[key] = self._manager._store.get_sync(key)", "            if self._manager._store.get_sync(key) is not None:\n                before_images[key] = self._manager._store.get_sync(key)", "C14-6"),
     ("btree-post-split-routes-left", BT, "            if key >= node.keys[idx]:\n                idx += 1", "            idx = bisect.bisect_left(node.keys, key)", "C14-8"),
     ("btree-delete-routes-left", BT, "        while not node.leaf:\n            idx = bisect.bisect_right(node.keys, key)\n            node = node.children[idx]\n\n        idx = bisect.bisect_left(node.keys, key)\n        if idx < len(node.keys) and node.keys[idx] == key:\n            node.keys.pop(idx)", "        while not node.leaf:\n            idx = bisect.bisect_left(node.keys, key)\n            node = node.children[idx]\n\n        idx = bisect.bisect_left(node.keys, key)\n        if idx < len(node.keys) and node.keys[idx] == key:\n            node.keys.pop(idx)", "C14-8"),
     ("snapshot-scan-before-store-read", TXN, ["        # Read from underlying store\n        value = yield from self._manager._store.get(key)\n        if self._isolation", "                    return entry.before_images[key]\n        return value"],
